@@ -75,14 +75,23 @@ theorem norm_fen_shape (b : Board) (wtm : Bool) (cm : UInt8) (ep : Option Sq) (h
   simp only [] at this
   rw [this, ← key, fixupEP_idem, key]
 
+theorem finishRead_shape (b : Board) (wtm : Bool) (cm : UInt8) (ep : Option Sq) (hmc fmc : Int) (r : RawPos)
+    (h : finishRead b wtm cm ep hmc fmc = .ok r) :
+    r.ep = (fixupEP { b := r.b, wtm := r.wtm, castle := r.castle, ep := ep, hmc := 0, fmc := 1 }).ep := by
+  unfold finishRead at h
+  repeat' split at h
+  all_goals first
+    | (cases h; rfl)
+    | (cases h; done)
+
 theorem readFENRaw_shape (fen : String) (r : RawPos) (h : readFENRaw fen = .ok r) :
     ∃ ep, r.ep = (fixupEP { b := r.b, wtm := r.wtm, castle := r.castle, ep := ep, hmc := 0, fmc := 1 }).ep := by
   unfold readFENRaw at h
   simp only [bind, Except.bind, pure, Except.pure] at h
   repeat' split at h
   all_goals first
-    | (cases h; exact ⟨_, rfl⟩)
     | (cases h; done)
+    | exact ⟨_, finishRead_shape _ _ _ _ _ _ _ h⟩
 
 theorem readFEN_norm (fen : String) (p : Pos) (h : readFEN fen = .ok p) : Norm p := by
   unfold readFEN at h
@@ -128,7 +137,7 @@ theorem setSq_get (b : Board) (n : Nat) (v : Pc) (s : Sq) : (setSq b n v)[s] = i
   unfold setSq
   simp only [Fin.getElem_fin, Vector.getElem_setIfInBounds]
 
-theorem own_ne_zero (w : Bool) (x : Pc) (h : own w x = true) : x ≠ 0 := by
+theorem own_ne_zero_dr (w : Bool) (x : Pc) (h : own w x = true) : x ≠ 0 := by
   rintro rfl
   cases w <;> simp [own, isWhite, isBlack] at h
 
@@ -202,8 +211,8 @@ theorem board_ne_two_plies (p : Pos) (m1 m2 : Mv) (h1 : legalB p m1 = true) (h2 
   simp only [nextPos, fixupEP_b] at hb hsq hempty
   rw [hb] at hsq
   rcases hsq with h | h | h
-  · rw [hempty] at h; exact own_ne_zero _ _ hown h
-  · exact own_ne_zero _ _ hown h
+  · rw [hempty] at h; exact own_ne_zero_dr _ _ hown h
+  · exact own_ne_zero_dr _ _ hown h
   · simp only [fixupEP_wtm, apply_wtm] at h
     rw [own_not_both _ _ hown] at h
     cases h
